@@ -125,5 +125,63 @@ theorem sumInputs_some (vs : List Nat) : ∀ (acc s : Nat), sumInputs vs acc = s
       obtain ⟨ha, _⟩ := checkedAdd_some _ _ _ hca
       have := ih _ _ h
       simp only [List.sum_cons]; omega
+/-- whatever the policy filter tolerates, a funded channel is credited net of the push -/
+theorem chanStep_add_net (flt : Filter) (o : Out) (c : ChanFacts) (v : Nat) (h : chanStep flt o c = .add v) :
+    v = c.value - c.pushMsat / 1000 ∧ c.pushMsat / 1000 ≤ c.value := by
+  unfold chanStep at h
+  generalize c.pushMsat / 1000 = push at h ⊢
+  split at h
+  · cases h
+  split at h
+  · cases h
+  split at h
+  · cases h
+  split at h
+  · cases h
+  split at h
+  · cases h
+  split at h
+  · cases h
+  rename_i hlt
+  simp only [OutRes.add.injEq] at h
+  exact ⟨h.symm, Nat.le_of_not_lt hlt⟩
+
+theorem outLoop_credit (flt : Filter) (n : Nat) (outs : List Out) :
+    ∀ (i sum : Nat) (unk : List Nat) (s : Nat) (u : List Nat),
+      outLoop flt n outs i sum unk = .done s u → s = sum + sumCredit flt outs := by
+  induction outs with
+  | nil =>
+    intro i sum unk s u h
+    simp only [outLoop, LoopRes.done.injEq] at h
+    simp [sumCredit, h.1.symm]
+  | cons o rest ih =>
+    intro i sum unk s u h
+    unfold outLoop at h
+    split at h
+    · cases h
+    · cases hc : classifyStep flt o with
+      | add v =>
+        simp only [hc] at h
+        cases hca : U64.checkedAdd sum v with
+        | none => simp [hca] at h
+        | some s1 =>
+          simp only [hca] at h
+          obtain ⟨hs1, _⟩ := checkedAdd_some _ _ _ hca
+          have e := ih _ _ _ _ _ h
+          simp only [sumCredit, List.map_cons, List.sum_cons, credit, hc] at e ⊢
+          omega
+      | skip =>
+        simp only [hc] at h
+        have e := ih _ _ _ _ _ h
+        simp only [sumCredit, List.map_cons, List.sum_cons, credit, hc] at e ⊢
+        omega
+      | unknown =>
+        simp only [hc] at h
+        have e := ih _ _ _ _ _ h
+        simp only [sumCredit, List.map_cons, List.sum_cons, credit, hc] at e ⊢
+        omega
+      | err t => simp [hc] at h
+      | panic => simp [hc] at h
+
 
 end VlsModel.Onchain
